@@ -23,8 +23,16 @@ class Ctx(object):
       self.check.analysed(fn)
     return self._cfgs[k]
 
-  def fn(self, modname, qualname, variant=0):
+  def fn(self, modname, qualname, variant=0, inline=True):
     return self.repo.func(modname, qualname, variant)
+
+  def inl(self, fn):
+    """the function with simple same-module helpers inlined (see sa/inline.py); fn itself if nothing was inlined."""
+    return fn      # the whole program is normalised when it is loaded (sa/inline.py: load_program)
+
+  def method(self, cls, name):
+    m = cls.methods.get(name)
+    return self.inl(m) if m is not None else None
 
   def callees(self, call, fn):
     k = id(call)
@@ -232,3 +240,45 @@ def short(node, n=70):
 
 def path_text(cfg, path):
   return cfg.describe_path(path) if path else ''
+
+
+def local_sources(fn, name, _seen=None):
+  """every expression a local name can hold in ``fn``, following plain copies (x = y) transitively and ignoring the
+  ``None`` initialiser of a spliced helper's result variable.  Parameters yield ('param', name)."""
+  seen = _seen if _seen is not None else set()
+  if name in seen:
+    return []
+  seen.add(name)
+  out = []
+  if name in fn.params:
+    out.append(('param', name))
+  for n in walk_no_nested(fn.node, include_self=False):
+    if isinstance(n, ast.Assign):
+      for t in n.targets:
+        if isinstance(t, ast.Name) and t.id == name:
+          v = n.value
+          if isinstance(v, ast.Name):
+            out.extend(local_sources(fn, v.id, seen))
+          elif isinstance(v, ast.Constant) and v.value is None and name.startswith('__ret'):
+            continue
+          else:
+            out.append(v)
+        elif isinstance(t, (ast.Tuple, ast.List)) and any(isinstance(e, ast.Name) and e.id == name for e in t.elts):
+          out.append(('unpack', n.value))
+    elif isinstance(n, (ast.AugAssign, ast.AnnAssign)) and isinstance(n.target, ast.Name) and n.target.id == name:
+      out.append(('aug', n))
+    elif isinstance(n, (ast.For, ast.comprehension)) and any(isinstance(x, ast.Name) and x.id == name for x in ast.walk(n.target)):
+      out.append(('iter', n.iter))
+    elif isinstance(n, ast.withitem) and n.optional_vars is not None and \
+        any(isinstance(x, ast.Name) and x.id == name for x in ast.walk(n.optional_vars)):
+      out.append(('with', n.context_expr))
+  return out
+
+
+def resolve_copies(fn, expr):
+  """the expressions ``expr`` can stand for: itself, or - for a local name - its sources (see local_sources)."""
+  if isinstance(expr, ast.Name) and expr.id not in fn.params:
+    src = local_sources(fn, expr.id)
+    if src:
+      return src
+  return [expr]
